@@ -30,7 +30,7 @@ def watch_occurrence(program, kind, filter_value=None, active_value=None, user_k
     filter_value: None = the trigger has no expression; otherwise the value its expression evaluates to.
     active_value: None = no @state_active; otherwise the value of its expression.
     user_kwargs: the decorator's kwargs={...} dictionary (DictV) or None.
-    Returns a list of records {runs: [argument dictionary given to call_action], filter_inputs, active_inputs, var_get, ended}."""
+    Returns a list of records {runs: [argument dictionary given to call_action], filter_inputs, active_inputs, var_get, change_inputs (arguments of the change predicates), ended}."""
     note, occ_args, occ_vars = occurrence(kind) if kind != "time" else (None, None, DictV([]))
 
     def deliver(cfg, out, via_wait_for):
@@ -67,7 +67,7 @@ def watch_occurrence(program, kind, filter_value=None, active_value=None, user_k
 
     summ = {"self.notify_q.get": qget, "asyncio.wait_for": lambda i, n, a, k, c, o: deliver(c, o, True), "dt_now": dtnow,
             "time.monotonic": lambda i, n, a, k, c, o: [(c, Const(100.0))],
-            "ident_any_values_changed": lambda i, n, a, k, c, o: [(c, Const(filter_value is None))], "ident_values_changed": lambda i, n, a, k, c, o: [(c, Const(True))],
+            "ident_any_values_changed": rec("$changed", Const(filter_value is None)), "ident_values_changed": rec("$changed", Const(True)),
             "self._call_expression": call_expr, "self.active_expr.eval": rec("$active", Const(active_value)),
             "State.notify_var_get": rec("$varget", lambda a: DictV([(Const("$from"), a[1] if len(a) > 1 else NONE)])),
             "State.notify_add": rec("$subscribed", Const(True)), "Event.notify_add": lambda i, n, a, k, c, o: [(c, NONE)],
@@ -97,5 +97,6 @@ def watch_occurrence(program, kind, filter_value=None, active_value=None, user_k
     for kd, c, desc in exits(out):
         def items(slot):
             return [tuple(x.items) for x in c.heap.get(slot, ListV(())).items]
-        recs.append({"ended": desc, "runs": items("$runs"), "filter_inputs": items("$filter"), "active_inputs": items("$active"), "var_get": items("$varget"), "subscribed": items("$subscribed")})
+        recs.append({"ended": desc, "runs": items("$runs"), "filter_inputs": items("$filter"), "active_inputs": items("$active"), "var_get": items("$varget"), "subscribed": items("$subscribed"),
+                     "change_inputs": items("$changed")})
     return recs, occ_args, occ_vars
